@@ -136,7 +136,8 @@ func countPollers(base map[string]bool) int {
 func leaked(base map[string]bool) []gor {
 	var out []gor
 	for _, g := range goroutines() {
-		if base[g.id] || strings.Contains(g.stack, "c16.goroutines") {
+		if base[g.id] || strings.Contains(g.stack, "c16.goroutines") ||
+			strings.Contains(g.stack, "c16.prefetch") || strings.Contains(g.stack, "os/exec.(*Cmd)") {
 			continue
 		}
 		out = append(out, g)
@@ -475,7 +476,33 @@ var warm sync.Once
 // fresh child process so that each output stays a function of its input line alone.
 var contaminated atomic.Bool
 
-func execInChild(input string) (string, bool) {
+func execInChild(input string) (string, bool) { return execInChildOpt(input, true) }
+
+// prefetch: the long, mostly sleeping scenarios (slow resolutions, timed connection attempts) are started in child
+// processes when generation begins and run beside the other cases; Exec of such a line waits for its child. A child
+// is a fresh process running exactly that line, so the output is the same function of the input as in-process.
+var prefetched sync.Map // input line -> chan string
+
+func prefetch(lines []string) {
+	if os.Getenv("C16_CHILD") != "" || os.Getenv("C16_NO_PREFETCH") != "" {
+		return
+	}
+	for _, l := range lines {
+		ch := make(chan string, 1)
+		if _, dup := prefetched.LoadOrStore(l, ch); dup {
+			continue
+		}
+		go func(l string) {
+			out, ok := execInChildOpt(l, false)
+			if !ok {
+				out = ""
+			}
+			ch <- out
+		}(l)
+	}
+}
+
+func execInChildOpt(input string, impatient bool) (string, bool) {
 	exe, err := os.Executable()
 	if err != nil {
 		return "", false
@@ -492,8 +519,11 @@ func execInChild(input string) (string, bool) {
 	ctx, cancel := context.WithTimeout(context.Background(), 3*time.Minute)
 	defer cancel()
 	cmd := exec.CommandContext(ctx, exe, "-area", "c16", "-replay", rp, "-out", filepath.Join(dir, "out"))
-	// children only exist once the tree has shown that it leaves things behind: they wait briefly
-	cmd.Env = append(os.Environ(), "C16_CHILD=1", "C16_IMPATIENT=1")
+	cmd.Env = append(os.Environ(), "C16_CHILD=1")
+	if impatient {
+		// these children only exist once the tree has shown that it leaves things behind: they wait briefly
+		cmd.Env = append(cmd.Env, "C16_IMPATIENT=1")
+	}
 	if cmd.Run() != nil {
 		return "", false
 	}
@@ -510,6 +540,11 @@ func execInChild(input string) (string, bool) {
 }
 
 func (a Area) Exec(input string) string {
+	if ch, ok := prefetched.LoadAndDelete(strings.TrimSpace(input)); ok {
+		if out := <-ch.(chan string); out != "" {
+			return out
+		}
+	}
 	if os.Getenv("C16_CHILD") == "" && contaminated.Load() {
 		if out, ok := execInChild(input); ok {
 			return out
@@ -683,6 +718,9 @@ func execLine(input string) string {
 	if len(f) > 0 && f[0] == "addrm" {
 		return execAddRm(f)
 	}
+	if len(f) > 0 && (f[0] == "cclose" || f[0] == "rclose") {
+		return execCClose(f)
+	}
 	if len(f) > 0 && f[0] == "cstream" {
 		return execCStream(f)
 	}
@@ -833,6 +871,46 @@ func (Area) Gen(r *rand.Rand, tier string, emit func(string)) {
 	cfgs := []string{"p0r1", "p0r0", "p1r1", "p1r0"}
 	line := func(kind, cfg string, ops []string) { emit(kind + " " + cfg + " " + strings.Join(ops, " ")) }
 
+	// the long, mostly sleeping scenarios run in child processes beside everything else (see prefetch)
+	slowresQ := []string{
+		"slowres 300 150 0 1 0", "slowres 300 150 60 1 1300", "slowres 300 150 120 0 0",
+		"slowres 300 150 250 1 0", "slowres 300 100 700 1 0", "slowres 200 400 30 0 200",
+	}
+	slowT := []string{
+		"slowres 300 150 30 1 2300", "slowres 500 100 0 0 0", "slowres 100 350 200 1 1200", "slowres 300 290 280 1 0",
+		"slowres 1000 50 0 1 0", "slowres 300 150 449 1 0", "slowres 300 150 460 1 0",
+		"slowrr 2000 0 1 1200", "slowrr 1000 500 0 0", "slowrr 3000 2500 1 0", "slowrr 500 2000 1 0",
+	}
+	cstreamQ := []string{
+		"cstream 1600 ready 1", "cstream 1600 ready 0", "cstream 1600 hold1 1", "cstream 1600 hold3 0",
+		"cstream 1600 refuse 0", "cstream 1600 hang 1", "cstream 0 hold1 0", "cstream 0 ready 1",
+	}
+	cstreamT := []string{
+		"cstream 2000 hold1 0", "cstream 2000 hold3 1", "cstream 2000 refuse 1", "cstream 2000 hang 0",
+		"cstream 1200 hold3 1", "cstream 1200 refuse 0", "cstream 2400 hold2 1", "cstream 0 hold2 1",
+	}
+	rcloseT := []string{"rclose 30000 refuse 4", "rclose 0 hang 3"}
+	pre := append(append([]string{"slowrr 1500 50 1 0"}, slowresQ...), cstreamQ...)
+	if tier == "thorough" {
+		pre = append(append(append(pre, slowT...), cstreamT...), rcloseT...)
+	}
+	prefetch(pre)
+	// the ~12 s router-level lines are emitted last, so that everything else runs while their children do
+	emitNow := emit
+	var late []string
+	emit = func(l string) {
+		if strings.HasPrefix(l, "slowrr ") || strings.HasPrefix(l, "rclose ") {
+			late = append(late, l)
+			return
+		}
+		emitNow(l)
+	}
+	defer func() {
+		for _, l := range late {
+			emitNow(l)
+		}
+	}()
+
 	// 1. hand-written edge cases (the D17 witness first)
 	for _, h := range []string{
 		"A0f A0o G0", "A0f G0", "A0f A0f A0o R0 A0o", "A0o R0 A0o R0 A0o", "A0o A0o A0f A0p R0 R0",
@@ -854,27 +932,33 @@ func (Area) Gen(r *rand.Rand, tier string, emit func(string)) {
 	// 300 ms, < 2 s each): closed 0/60/120 ms into a 450 ms resolution (the rest outlasts one request timeout),
 	// during the second request (rest shorter than a timeout), and when the poller is idle; with and without polling,
 	// with and without an observation window longer than the poll interval.
-	for _, l := range []string{
-		"slowres 300 150 0 1 0", "slowres 300 150 60 1 1300", "slowres 300 150 120 0 0",
-		"slowres 300 150 250 1 0", "slowres 300 100 700 1 0", "slowres 200 400 30 0 200",
-	} {
+	for _, l := range slowresQ {
 		emit(l)
 	}
 	// 1c. AdaptedClientConn in detail (conn.go): Stream against controlled connectivity with the halved wait, the
 	// deadline the target is told, Close racing Stream; and pool.New racing itself.
+	for _, l := range cstreamQ {
+		emit(l)
+	}
+	// Close while Streams WAIT on a not-ready connection (dial blocked / failing): they must all return at once
 	for _, l := range []string{
-		"cstream 1600 ready 1", "cstream 1600 ready 0", "cstream 1600 hold1 1", "cstream 1600 hold3 0",
-		"cstream 1600 refuse 0", "cstream 1600 hang 1", "cstream 0 hold1 0", "cstream 0 ready 1",
+		"cclose 8000 hang 6", "cclose 8000 refuse 6", "cclose 0 hang 3", "cclose 0 refuse 4", "cclose 8000 hang 1", "cclose 8000 refuse 2",
 	} {
 		emit(l)
+	}
+	if tier == "thorough" {
+		for k := 0; k < 30; k++ {
+			emit(fmt.Sprintf("cclose %d %s %d", []int{0, 8000, 20000}[r.Intn(3)], []string{"hang", "refuse"}[k%2], 1+r.Intn(12)))
+		}
+		// through ReflectionRouter.Remove with the backend down (Remove first waits 5–10 s for the resolver's own attempt)
+		for _, l := range rcloseT {
+			emit(l)
+		}
 	}
 	nrace := 25
 	if tier == "thorough" {
 		nrace = 300
-		for _, l := range []string{
-			"cstream 2000 hold1 0", "cstream 2000 hold3 1", "cstream 2000 refuse 1", "cstream 2000 hang 0",
-			"cstream 1200 hold3 1", "cstream 1200 refuse 0", "cstream 2400 hold2 1", "cstream 0 hold2 1",
-		} {
+		for _, l := range cstreamT {
 			emit(l)
 		}
 	}
@@ -895,11 +979,7 @@ func (Area) Gen(r *rand.Rand, tier string, emit func(string)) {
 	// Router level: the request timeout is the fixed 10 s default, one case costs 11–13 s.
 	emit("slowrr 1500 50 1 0")
 	if tier == "thorough" {
-		for _, l := range []string{
-			"slowres 300 150 30 1 2300", "slowres 500 100 0 0 0", "slowres 100 350 200 1 1200", "slowres 300 290 280 1 0",
-			"slowres 1000 50 0 1 0", "slowres 300 150 449 1 0", "slowres 300 150 460 1 0",
-			"slowrr 2000 0 1 1200", "slowrr 1000 500 0 0", "slowrr 3000 2500 1 0", "slowrr 500 2000 1 0",
-		} {
+		for _, l := range slowT {
 			emit(l)
 		}
 	}
